@@ -656,3 +656,417 @@ func ruleOWSBeforeSep(r *Run) {
 		r.undecided("accept-parser/head-tests", token.NoPos, "no strings.HasPrefix test of the remaining input found under negotiateContentType / negotiateContentEncoding")
 	}
 }
+
+func init() {
+	register(&Rule{Name: "PARAM-INDEPENDENT", Floor: 1,
+		Doc: "params.set applies every parameter on its own, walking its field path down from the request message: no protoreflect/proto message value is carried around the loop over the parameter list (a 'reuse the sub-message resolved for the previous parameter' shortcut writes a path value into a sibling field of the same message type)",
+		Run: ruleParamIndependent})
+}
+
+func ruleParamIndependent(r *Run) {
+	p := r.P
+	fn := p.Method("params", "set")
+	if fn == nil {
+		r.missing("method (params).set")
+		return
+	}
+	// the loop over the parameter list: a header phi that indexes the receiver
+	var head *ssa.BasicBlock
+	p.eachInstrRegion(fn, func(g *ssa.Function, in ssa.Instruction) {
+		ia, ok := in.(*ssa.IndexAddr)
+		if !ok || g != fn {
+			return
+		}
+		// `for i := …; i < len(ps); i++` indexes with the counter phi, `for _, p := range ps` with counter+1
+		ph, ok := ia.Index.(*ssa.Phi)
+		if bo, isBin := ia.Index.(*ssa.BinOp); !ok && isBin && bo.Op == token.ADD {
+			ph, ok = bo.X.(*ssa.Phi)
+		}
+		if !ok || !blockInLoop(ph.Block()) {
+			return
+		}
+		for _, o := range p.origins(ia.X, originOpts{local: true, throughSlice: true}) {
+			if o == ssa.Value(fn.Params[0]) {
+				head = ph.Block()
+			}
+		}
+	})
+	if head == nil {
+		r.undecided("(params).set/loop", fn.Pos(), "no loop over the receiver list found")
+		return
+	}
+	isMsg := func(t types.Type) bool {
+		n := namedOf(t)
+		if n == nil || n.Obj().Pkg() == nil {
+			return false
+		}
+		switch n.Obj().Pkg().Path() + "." + n.Obj().Name() {
+		case protoreflect + ".Message", "google.golang.org/protobuf/proto.Message", "google.golang.org/protobuf/reflect/protoreflect.ProtoMessage":
+			return true
+		}
+		return false
+	}
+	bad := ""
+	var pos token.Pos = fn.Pos()
+	for _, in := range head.Instrs {
+		ph, ok := in.(*ssa.Phi)
+		if !ok {
+			break
+		}
+		if isMsg(ph.Type()) {
+			// carried only if some way back brings a value made inside the loop
+			for i, e := range ph.Edges {
+				if blockReaches(head, head.Preds[i]) && !isNilConst(e) {
+					if _, isPar := e.(*ssa.Parameter); !isPar {
+						bad = ph.Comment
+						pos = ph.Pos()
+					}
+				}
+			}
+		}
+	}
+	// the same through a variable cell written in the loop and read before being rewritten is not modelled: a
+	// message-typed local that lives across iterations shows up as a phi unless a closure captures it
+	r.check(bad == "", "(params).set/no-message-carried-over", pos, "each parameter is resolved from the request message on its own",
+		fmt.Sprintf("the message held in %q survives from one parameter to the next: a parameter can be written relative to where the previous one ended instead of along its own field path", bad))
+}
+
+func init() {
+	register(&Rule{Name: "LEX-EOF-ONLY", Floor: 1,
+		Doc: "the request-path lexer closes its token list with the end marker only where it has read the end of the input (the emit of tokenEOF is reached only under next() == eof): closing the list anywhere else - when the token budget runs out, say - hands the matcher a truncated path that templates match which do not cover the request",
+		Run: ruleLexEOFOnly})
+}
+
+func ruleLexEOFOnly(r *Run) {
+	p := r.P
+	fn := p.Func("lexPath")
+	if fn == nil {
+		r.missing("func lexPath")
+		return
+	}
+	scope := p.Lark.Types.Scope()
+	tokEOF, _ := scope.Lookup("tokenEOF").(*types.Const)
+	eofC, _ := scope.Lookup("eof").(*types.Const)
+	if tokEOF == nil || eofC == nil {
+		r.missing("constants tokenEOF / eof")
+		return
+	}
+	tokVal, _ := constToInt(tokEOF.Val())
+	eofVal, _ := constToInt(eofC.Val())
+	fromNext := func(v ssa.Value) bool {
+		for _, o := range p.origins(v, originOpts{throughConvert: true, local: true}) {
+			if c, ok := o.(*ssa.Call); ok && calleeName(c) == "(*larking.io/larking.lexer).next" {
+				return true
+			}
+		}
+		return false
+	}
+	sawEnd := func(g guardFact) bool {
+		x, y, op, ok := g.cmp()
+		if !ok || op != token.EQL {
+			return false
+		}
+		if k, isC := constInt(y); isC && k == eofVal && fromNext(x) {
+			return true
+		}
+		if k, isC := constInt(x); isC && k == eofVal && fromNext(y) {
+			return true
+		}
+		return false
+	}
+	n := 0
+	p.eachInstrRegion(fn, func(g *ssa.Function, in ssa.Instruction) {
+		c, ok := in.(ssa.CallInstruction)
+		if !ok || calleeName(c) != "(*larking.io/larking.lexer).emit" || len(c.Common().Args) < 2 {
+			return
+		}
+		if k, isC := constInt(c.Common().Args[1]); !isC || k != tokVal {
+			return
+		}
+		n++
+		key := fmt.Sprintf("%s/end-marker#%d", shortFunc(g), n)
+		r.check(p.guardedInEveryContext(in.Block(), sawEnd), key, in.Pos(), "the end marker is emitted only where next() returned eof",
+			"the end marker is emitted on a path where the lexer has not read the end of the input: the rest of the request path (further segments, a :verb) is silently dropped before matching")
+	})
+	if n == 0 {
+		r.undecided("lexPath/end-marker", fn.Pos(), "lexPath never emits the end marker")
+	}
+}
+
+func init() {
+	register(&Rule{Name: "QUERY-EVERY-VALUE", Floor: 1,
+		Doc: "parseQueryParams turns every value of every query key into a parameter or fails: from the read of a value no path returns to the loop over the values without appending to the result (a skipped value - an empty string taken for 'not set' - drops an element of a repeated field, leaves a oneof member unset, and accepts empty numeric text)",
+		Run: ruleQueryEveryValue})
+}
+
+func ruleQueryEveryValue(r *Run) {
+	p := r.P
+	fn := p.Method("method", "parseQueryParams")
+	if fn == nil {
+		r.missing("method (*method).parseQueryParams")
+		return
+	}
+	n := 0
+	eachInstr(fn, func(in ssa.Instruction) {
+		// the read of one value: element of a []string that comes from ranging over the url.Values map
+		u, ok := in.(*ssa.UnOp)
+		if !ok || u.Op != token.MUL {
+			return
+		}
+		ia, ok := u.X.(*ssa.IndexAddr)
+		if !ok || !blockInLoop(in.Block()) {
+			return
+		}
+		if bt, ok := u.Type().Underlying().(*types.Basic); !ok || bt.Kind() != types.String {
+			return
+		}
+		fromRange := false
+		for _, o := range p.origins(ia.X, originOpts{local: true}) {
+			if ex, ok := o.(*ssa.Extract); ok {
+				if _, isNext := ex.Tuple.(*ssa.Next); isNext {
+					fromRange = true
+				}
+			}
+		}
+		if !fromRange {
+			return
+		}
+		// the header of the loop over the values: the innermost loop header that dominates the read
+		var head *ssa.BasicBlock
+		for b := in.Block(); b != nil; b = b.Idom() {
+			isHead := false
+			for _, pr := range b.Preds {
+				if blockReaches(in.Block(), pr) && b.Dominates(pr) {
+					isHead = true
+				}
+			}
+			if isHead && b != in.Block() || (isHead && len(b.Preds) > 1) {
+				head = b
+				break
+			}
+		}
+		if head == nil {
+			return
+		}
+		n++
+		key := fmt.Sprintf("(*method).parseQueryParams/value-read#%d", n)
+		q := pathQuery{fn: fn, start: in,
+			target: func(x ssa.Instruction) bool { return x.Block() == head },
+			barrier: func(x ssa.Instruction) bool {
+				if c, ok := x.(*ssa.Call); ok && calleeName(c) == "builtin.append" {
+					return true
+				}
+				return false
+			}}
+		if w, _ := q.find(); w != nil {
+			r.bad(key, in.Pos(), "a query value can be read and passed over without becoming a parameter (%s): the request message the handler gets is not the one the query string describes", p.describePath(w))
+		} else {
+			r.ok(key, in.Pos(), "every value read is appended to the parameter list or ends the function with an error")
+		}
+	})
+	if n == 0 {
+		r.undecided("(*method).parseQueryParams/values", fn.Pos(), "no loop over the values of a query key found")
+	}
+}
+
+func init() {
+	register(&Rule{Name: "TOKEN-WIDTH", Floor: 6,
+		Doc: "a token whose text is fixed by the grammar ('/', '*', '**', '{', '}', '=', '.', ':') is emitted after exactly that many runes were consumed since the previous token (next +1, backup -1, counted on every path through the lexer functions; a run-accepting call leaves the count open): '***' lexed as one '**' token, or a look-ahead rune that is not given back, registers templates the grammar does not derive",
+		Run: ruleTokenWidth})
+}
+
+func ruleTokenWidth(r *Run) {
+	p := r.P
+	scope := p.Lark.Types.Scope()
+	fixed := map[int64]int{}
+	names := map[int64]string{}
+	for name, w := range map[string]int{"tokenSlash": 1, "tokenStar": 1, "tokenStarStar": 2, "tokenVariableStart": 1, "tokenVariableEnd": 1, "tokenEqual": 1, "tokenDot": 1, "tokenVerb": 1} {
+		if c, ok := scope.Lookup(name).(*types.Const); ok {
+			if k, ok := constToInt(c.Val()); ok {
+				fixed[k] = w
+				names[k] = name
+			}
+		}
+	}
+	if len(fixed) < 4 {
+		r.missing("token kind constants (tokenSlash, tokenStar, tokenStarStar, …)")
+		return
+	}
+	const lexerT = "*larking.io/larking.lexer"
+	takesLexer := func(fn *ssa.Function) bool {
+		return fn != nil && p.InModule(fn) && len(fn.Blocks) > 0 && len(fn.Params) > 0 && typeString(fn.Params[0].Type()) == "*lexer"
+	}
+	const unk = -1
+	type st struct {
+		b  *ssa.BasicBlock
+		pc int
+		w  int
+	}
+	entry := map[*ssa.Function]map[int]bool{}
+	addEntry := func(fn *ssa.Function, w int) bool {
+		if entry[fn] == nil {
+			entry[fn] = map[int]bool{}
+		}
+		if entry[fn][w] {
+			return false
+		}
+		entry[fn][w] = true
+		return true
+	}
+	type finding struct {
+		pos   token.Pos
+		fn    *ssa.Function
+		kind  int64
+		w     int
+		entry int
+	}
+	var bad []finding
+	checked := map[ssa.Instruction]bool{}
+	var analyse func(fn *ssa.Function, w0 int, report bool) (changed bool)
+	analyse = func(fn *ssa.Function, w0 int, report bool) bool {
+		changed := false
+		seen := map[st]bool{}
+		work := []st{{fn.Blocks[0], 0, w0}}
+		for len(work) > 0 {
+			s := work[len(work)-1]
+			work = work[:len(work)-1]
+			if seen[s] {
+				continue
+			}
+			seen[s] = true
+			if s.pc >= len(s.b.Instrs) {
+				continue
+			}
+			in := s.b.Instrs[s.pc]
+			w := s.w
+			if c, ok := in.(ssa.CallInstruction); ok {
+				switch n := calleeName(c); n {
+				case "(" + lexerT + ").next":
+					if w != unk {
+						w++
+					}
+				case "(" + lexerT + ").backup":
+					if w != unk {
+						w--
+					}
+				case "(" + lexerT + ").acceptRun", "(" + lexerT + ").accept":
+					w = unk
+				case "(" + lexerT + ").errUnexpected", "(" + lexerT + ").errShort":
+					w = 0
+				case "(" + lexerT + ").emit":
+					if k, isC := constInt(c.Common().Args[1]); isC {
+						if want, isFixed := fixed[k]; isFixed && report {
+							checked[in] = true
+							if w != want {
+								bad = append(bad, finding{in.Pos(), fn, k, w, w0})
+							}
+						}
+					}
+					w = 0
+				default:
+					if callee := c.Common().StaticCallee(); takesLexer(callee) && !c.Common().IsInvoke() && callee.Signature.Recv() == nil {
+						if addEntry(callee, w) {
+							changed = true
+						}
+						w = 0 // lexer functions hand back at a token boundary
+					}
+				}
+			}
+			if w > 6 || w < -6 {
+				w = unk
+			}
+			switch in.(type) {
+			case *ssa.If, *ssa.Jump:
+				for _, sb := range s.b.Succs {
+					work = append(work, st{sb, 0, w})
+				}
+			case *ssa.Return, *ssa.Panic:
+			default:
+				work = append(work, st{s.b, s.pc + 1, w})
+			}
+		}
+		return changed
+	}
+	// roots: the two lexers are started at the beginning of their input
+	// (whatever lexer function is called from code that is not itself a lexer function: lexTemplate, lexPath today)
+	for _, fn := range p.ModuleFuncs() {
+		eachInstr(fn, func(in ssa.Instruction) {
+			c, ok := in.(ssa.CallInstruction)
+			if !ok || c.Common().IsInvoke() {
+				return
+			}
+			callee := c.Common().StaticCallee()
+			if !takesLexer(callee) || callee.Signature.Recv() != nil {
+				return
+			}
+			top := fn
+			for top.Parent() != nil {
+				top = top.Parent()
+			}
+			if !takesLexer(top) {
+				addEntry(callee, 0)
+			}
+		})
+	}
+	if len(entry) == 0 {
+		r.missing("lexer entry points (functions taking *lexer called from the matcher / registration)")
+		return
+	}
+	for round := 0; round < 12; round++ {
+		changed := false
+		for fn, ws := range entry {
+			for w := range ws {
+				if analyse(fn, w, false) {
+					changed = true
+				}
+			}
+		}
+		if !changed {
+			break
+		}
+	}
+	for fn, ws := range entry {
+		for w := range ws {
+			analyse(fn, w, true)
+		}
+	}
+	// stable keys: function/emit:kind#n, n counting the emits of that kind in the function in source order
+	ordinal := map[token.Pos]string{}
+	for fn := range entry {
+		cnt := map[int64]int{}
+		eachInstr(fn, func(in ssa.Instruction) {
+			if c, ok := in.(ssa.CallInstruction); ok && calleeName(c) == "("+lexerT+").emit" {
+				if k, isC := constInt(c.Common().Args[1]); isC {
+					cnt[k]++
+					ordinal[in.Pos()] = fmt.Sprintf("%s/emit:%s#%d", shortFunc(fn), names[k], cnt[k])
+				}
+			}
+		})
+	}
+	flagged := map[ssa.Instruction]bool{}
+	for _, f := range bad {
+		got := fmt.Sprint(f.w)
+		if f.w == unk {
+			got = "an open number of"
+		}
+		key := ordinal[f.pos]
+		r.bad(key, f.pos, "%s is emitted after %s rune(s) were consumed since the previous token (the function entered %d rune(s) into a token); its text is fixed at %d: the token swallows input the grammar gives to other tokens", names[f.kind], got, f.entry, fixed[f.kind])
+	}
+	for in := range checked {
+		isBad := false
+		for _, f := range bad {
+			if f.pos == in.Pos() {
+				isBad = true
+			}
+		}
+		if !isBad && !flagged[in] {
+			flagged[in] = true
+			c := in.(ssa.CallInstruction)
+			k, _ := constInt(c.Common().Args[1])
+			r.ok(ordinal[in.Pos()], in.Pos(), "emitted after exactly %d rune(s) on every path", fixed[k])
+		}
+	}
+	if len(checked) == 0 {
+		r.undecided("lexer/fixed-tokens", token.NoPos, "no emit of a fixed-text token reached from lexTemplate / lexPath")
+	}
+}
